@@ -536,7 +536,9 @@ func (s *configurationStore) getApplied(ctx context.Context, id configapi.Config
 func (s *configurationStore) store(ctx context.Context, store _map.Map[string, *configapi.PathValue], values map[string]configapi.PathValue) error {
 	prunedValues := tree.PrunePathMap(values, true)
 	transaction := store.Transaction(ctx)
-	for _, pv := range values {
+	for _, v := range values {
+		// the transaction encodes its values at Commit: every operation needs its own copy of the path value
+		pv := v
 		entry, err := store.Get(ctx, pv.Path)
 		if err != nil {
 			err = errors.FromAtomix(err)
